@@ -332,6 +332,10 @@ theorem ORel.bind {α β : Type} {R : α → α → Prop} {S : β → β → Pro
     (h : ORel R x y) (hf : ∀ a b, R a b → ORel S (f a) (g b)) : ORel S (x >>= f) (y >>= g) := by
   cases x <;> cases y <;> simp_all [ORel, Bind.bind, Outcome.bind]
 
+theorem bind_eq_ok {α β : Type} {x : Outcome α} {f : α → Outcome β} {b : β} (h : (x >>= f) = .ok b) :
+    ∃ a, x = .ok a ∧ f a = .ok b := by
+  cases x <;> simp_all [Bind.bind, Outcome.bind]
+
 theorem ORel.pure {α : Type} {R : α → α → Prop} {a b : α} (h : R a b) : ORel R (Pure.pure a : Outcome α) (Pure.pure b) := h
 
 end Sqlgrep.Iter
